@@ -201,15 +201,22 @@ def run(ctx: Ctx) -> None:
     comp, chk, rst = eng.methods.get("compile"), eng.methods.get("check"), eng.methods.get("reset")
     if not (comp and chk and rst):
         raise AnalysisError("CompilationEngine.compile/check/reset vanished")
+    def self_calls(fn_node, meth):
+        # `self.meth(…)`, also through a local alias of self (`engine = self; engine.meth()`)
+        aliases = {"self"} | {n.targets[0].id for n in walk_no_nested(fn_node) if isinstance(n, ast.Assign) and len(n.targets) == 1
+                              and isinstance(n.targets[0], ast.Name) and isinstance(n.value, ast.Name) and n.value.id == "self"}
+        return lambda m: any(isinstance(c.func, ast.Attribute) and c.func.attr == meth and isinstance(c.func.value, ast.Name) and c.func.value.id in aliases
+                             for c in node_calls(m))
+
     g = CFG(comp.node)
     ctxs = [n for n in g.nodes if n.kind in ("stmt", "test") and any(call_name(c) in ("CompilerContext",) for c in node_calls(n))]
-    ok = bool(ctxs) and all(g.dominated_by(n, lambda m: any(call_name(c) == "check" and dotted(c.func) == "self.check" for c in node_calls(m))) for n in ctxs)
+    ok = bool(ctxs) and all(g.dominated_by(n, self_calls(comp.node, "check")) for n in ctxs)
     fresh_mod = any(call_name(c) == "Module" for c in calls_in(comp.node))
     ctx.check(ok and fresh_mod, "R-C11.2", f"{comp.qualname}#checks-first-and-builds-fresh-context", comp.where, {"check_dominates_context": ok, "fresh_module": fresh_mod},
               "a compile can reuse checked objects or a HUGR module from an earlier compile")
     g = CFG(chk.node)
     work = [n for n in g.nodes if n.kind in ("stmt", "test") and any(call_name(c) in ("parse", "get_checked", "popitem") for c in node_calls(n))]
-    ok = bool(work) and all(g.dominated_by(n, lambda m: any(dotted(c.func) == "self.reset" for c in node_calls(m))) for n in work)
+    ok = bool(work) and all(g.dominated_by(n, self_calls(chk.node, "reset")) for n in work)
     ctx.check(ok, "R-C11.2", f"{chk.qualname}#resets-first", chk.where, {"reset_dominates_work": ok},
               "a check starts from the caches (parsed/checked definitions, worklists) left by the previous call")
     fields = {t.attr for n in walk_no_nested(rst.node) if isinstance(n, ast.Assign) for t in n.targets if isinstance(t, ast.Attribute)}
